@@ -153,7 +153,12 @@ fn conforming_model(rng: &mut Rng, version: u8) -> ZoneModel {
                 corr = 1;
             }
             m.leaps.push((t, corr));
-            t += 28 * 86_400 + rng.range(0, 3 * 365 * 86_400);
+            // RFC 8536: consecutive leap seconds are at least 28 days minus one second apart
+            t += match rng.below(4) {
+                0 => 28 * 86_400 - 1,
+                1 => 28 * 86_400,
+                _ => 28 * 86_400 + rng.range(0, 3 * 365 * 86_400),
+            };
             if version == 1 && t > i32::MAX as i64 {
                 break;
             }
